@@ -5,9 +5,9 @@ import lib
 from props import pgen, pstack
 
 ID = 'C08'
-GEN_FILES = ['T_parser', 'T_pins_parser']
+GEN_FILES = ['T_parser', 'T_pins_parser', 'T_pins_lexer', 'T_pins_walker']
 COQ_PROPERTY = 'theories/Properties/C08.vo'
-COQ_EXTRA = ['theories/Proofs/ParserPins.vo', 'theories/Generated/T_parser_selftest.vo']
+COQ_EXTRA = ['theories/Proofs/ParserPins.vo', 'theories/Generated/T_parser_selftest.vo', 'theories/Proofs/LexerPins.vo', 'theories/Proofs/WalkerPins.vo']
 MODEL = ('ExC08', ['lua_io.ml', 'c08_main.ml'])
 MONITOR = ('MonC08', ['lua_io.ml', 'c08_mon_main.ml'])
 CASE_TIMEOUT = 120
@@ -188,7 +188,13 @@ def run_impl(case):
         o = pstack.observe_parse(src, prior=lib.unhx(case['prior']), mode=case['prior_mode'])
     else:
         o = pstack.observe_parse(src)
-    o.pop('lua', None)
+    l = o.pop('lua', None)
+    if l is not None and o.get('parse', '').startswith('OK '):
+        # the tree as every walker without handlers of its own sees it (build's RequireWalker; the statement's "the tree
+        # walked by build and by the AST writers")
+        w = pstack.walk_check(l.root)
+        if w:
+            o['walk'] = w
     toks = o.pop('tokens', None)
     if toks is None:
         return o
@@ -256,6 +262,8 @@ def failure_class(case, obs, answers=None):
     if answers:
         for a in answers:
             if a.startswith('false'):
+                if a.startswith('false walk'):
+                    return 'walk'
                 cl = a[6:].split(',')
                 for c in ('consumed', 'denotes', 'shortif-on-line', 'ranges', 'leaves-increasing', 'root'):
                     if c in cl:
@@ -276,6 +284,7 @@ def what(case, obs, answers=None):
          'denotes': 'the tree is not the one the program denotes',
          'shortif-on-line': 'a one-line if extends past the end of its line',
          'ranges': 'node positions are not nested', 'leaves-increasing': 'tokens of the tree are out of source order',
+         'walk': 'a walker with the default node handlers does not reach every node of the tree',
          'root': 'root is not a Chunk spanning [0, end]'}.get(fc, 'a valid program is rejected (%s)' % fc)
     sp = signature(case, obs, answers).split('/')[-1]
     return '%s [%s]: %r' % (d, sp, lib.unhx(case['src'])[:80])
@@ -351,6 +360,8 @@ def run_cases(cases, ctx):
                                       'difference': 'harness: the generated tree is not a derivation of the token list in the reference grammar: ' + refbad[0]})
                 continue
             bad = [x for r, x in zip(rq, a) if r.startswith('hold ') and x != 'true']
+            if o.get('walk'):
+                bad.append('false walk: ' + o['walk'])
             rejected = c['kind'] == 'gen' and o.get('parse', '').startswith('ERR') and not o.get('layout_mismatch')
             if bad or rejected:
                 violations.append(_violation(c, o, bad, ctx, minimized))
@@ -392,6 +403,8 @@ def _check_one(c, ctx):
     if any(r.startswith('ref ') and x != 'true' for r, x in zip(rq, a)):
         return o, None
     bad = [x for r, x in zip(rq, a) if r.startswith('hold ') and x != 'true']
+    if o.get('walk'):
+        bad.append('false walk: ' + o['walk'])
     rejected = c['kind'] == 'gen' and o.get('parse', '').startswith('ERR') and not o.get('layout_mismatch')
     return o, (bad if (bad or rejected) else None)
 
